@@ -548,8 +548,8 @@ def ruleHalfAfterHH(ts: datetime, _: RegexMatch, t: Time) -> Optional[Time]:
 def ruleTODPOD(ts: datetime, tod: Time, pod: Time) -> Optional[Time]:
     # time of day may only be an hour as in "3 in the afternoon"; this
     # is only relevant for time <= 12
-    if tod.hour == 0 and "night" in pod.POD:
-        # 0 uhr nachts, 0:30 at night: the hour after midnight is at night as it stands
+    if tod.hour in (0, 12) and "night" in pod.POD:
+        # 0 uhr nachts, 12 uhr nachts, 12:30 at night: the hour after midnight
         h = 0
     elif tod.hour < 12 and (
         "afternoon" in pod.POD
